@@ -646,6 +646,9 @@ pub enum WriterCfg {
     /// action (used for a re-entrant encode of the same value: what a
     /// callback, a signal handler or a logging writer may do)
     Reentrant(u8),
+    /// as `Reentrant`, nested: the writer of the nested encode re-enters
+    /// too, `depth` levels deep (call index, depth)
+    ReentrantDeep(u8, u8),
     /// monitored flat vector that stands for the patchable tail of a long
     /// stream: `len()` reports `base` octets more than it holds (what a log
     /// or stream writer that has flushed `base` octets reports); only the
@@ -667,6 +670,7 @@ impl WriterCfg {
             WriterCfg::Vec => "vec",
             WriterCfg::Paged(_) => "paged",
             WriterCfg::Reentrant(_) => "reentrant",
+            WriterCfg::ReentrantDeep(..) => "reentrant-nested",
             WriterCfg::Based(_) => "based",
             WriterCfg::Full(_) => "full",
         }
